@@ -11,6 +11,7 @@ from bodies import enc, vevent, vcard
 from common import run_driver, scratch_dir
 from httpdrv import make_server
 import translate
+import transval
 
 AUDIT = "Audit/C13.lean"
 MODULE = "Xandikos.Theorems.C13"
@@ -288,6 +289,8 @@ def regen(chk):
     chk.extra["translation"] = {"_map_to_file_path": "ok" if text else "unavailable: " + err}
     if err:
         chk.notes.append("translation of _map_to_file_path unavailable (%s): tied by correspondence only" % err)
+    else:
+        transval.validate(chk, ["PathMap"])
 
 
 def run(chk):
